@@ -456,12 +456,17 @@ def run_shard(spec):
                     a = gen.notebook(5 if ("id" in S and r.random() < 0.8) else None, ncells=r.choice([2, 3, 4]))
                     if validate_nb(a):
                         continue
+                    if r.random() < 0.25:
+                        # payloads beyond the alignment predicates' comparison cut-offs (10000 / 1000 chars)
+                        from ..workloads import inflate_outputs
+                        if inflate_outputs(a, r):
+                            col.count("confined_pairs_with_large_output_payload")
                     b, confined = confined_edit(a, S - {"sources"}, gen)
                     if validate_nb(b):
                         continue
                     cls = "confined"
                 else:
-                    cls, a, b, rec, waste = valid_pair(gen, cls=r.choice(["related", "related", "attachments", "output_kinds", "mime_keys", "meta_types", "minor_change", "move_dup"]))
+                    cls, a, b, rec, waste = valid_pair(gen, cls=r.choice(["related", "related", "attachments", "output_kinds", "mime_keys", "meta_types", "minor_change", "move_dup", "large_outputs"]))
                     if cls is None:
                         continue
                     if r.random() < 0.5:
